@@ -20,6 +20,7 @@ DecPd(j) ==
      y1 |-> InRat(j.y1), y2 |-> InRat(j.y2), mu |-> InRat(j.mu), Ncte |-> RatSeq(j.Ncte)]
 Pts(s) == Fn([k \in 1..Len(s) |-> <<InRat(s[k][1]), InRat(s[k][2])>>])
 Forces(s) == Fn([k \in 1..Len(s) |-> RatSeq(s[k])])
+Taper(j) == IF "taper" \in DOMAIN j THEN RatSeq(j.taper) ELSE Uniform
 DecReq(j) ==
     LET pl == [size |-> j.size, row0 |-> j.row0, col0 |-> j.col0]
     IN CASE j.q = "k0"  -> [q |-> "k0"] @@ pl
@@ -31,8 +32,8 @@ DecReq(j) ==
                                rho |-> InRat(j.rho), V |-> InRat(j.V), ainf |-> InRat(j.ainf)] @@ pl
          [] j.q = "uvw" -> [q |-> "uvw", c |-> RatSeq(j.c), pts |-> Pts(j.pts)] @@ pl
          [] j.q \in {"strain", "stress"} -> [q |-> j.q, c |-> RatSeq(j.c), pts |-> Pts(j.pts), NL |-> j.NL] @@ pl
-         [] j.q \in {"fint", "kT"} -> [q |-> j.q, c |-> RatSeq(j.c)] @@ pl
-         [] j.q = "kGc" -> [q |-> "kGc", c |-> RatSeq(j.c), NL |-> j.NL] @@ pl
+         [] j.q \in {"fint", "kT"} -> [q |-> j.q, c |-> RatSeq(j.c), taper |-> Taper(j)] @@ pl
+         [] j.q = "kGc" -> [q |-> "kGc", c |-> RatSeq(j.c), NL |-> j.NL, taper |-> Taper(j)] @@ pl
          [] j.q \in {"fext", "static"} -> [q |-> "fext", forces |-> Forces(j.forces), forcesInc |-> Forces(j.forcesInc),
                                             inc |-> InRat(j.inc)] @@ pl
 
